@@ -681,7 +681,7 @@ fn lex_string_order(cx: &mut Ctx) {
     } else {
         cx.fail(rule, &format!("{}/triple-close", rule), &lx.loc(f), "the closing-quote logic is not `triple ? (two more quotes => consume both, break) : break`");
     }
-    if t.contains("}string_content.push(c);}_=>") && t.matches("string_content.push(").count() == 3 {
+    if t.contains("}string_content.push(c);},_=>") && t.matches("string_content.push(").count() == 3 {
         cx.ok(rule, "every other character is pushed unchanged (3 push sites in all)");
     } else {
         cx.fail(rule, &format!("{}/content", rule), &lx.loc(f), "content characters are not pushed exactly once each");
